@@ -19,42 +19,64 @@ theorem replaceFirst_cons_neg (old new : S) (c : Char) (r : S) (h : ¬ old <+: c
   rw [replaceFirst]
   rw [if_neg this]
 
-/-- `s.replace('Z', '+00:00', 1)` undoes `s.replace('+00:00', 'Z', 1)` on any text without a `Z`. -/
-theorem zToOffset_isoZ_aux (off : S) (t : S) (h : 'Z' ∉ t) :
-    replaceFirst ['Z'] off (replaceFirst off ['Z'] t) = t ∨ off = [] := by
-  by_cases hoff : off = []
-  · exact Or.inr hoff
-  left
-  induction t with
+/-- replacing the first `Z` in `a ++ 'Z' :: b` when `a` has none -/
+theorem replaceFirst_Z_append (new a b : S) (h : 'Z' ∉ a) :
+    replaceFirst ['Z'] new (a ++ 'Z' :: b) = a ++ new ++ b := by
+  induction a with
   | nil =>
-    cases off with
-    | nil => exact absurd rfl hoff
-    | cons a o => simp [replaceFirst]
+    have hz : ['Z'] <+: ('Z' :: b) := ⟨b, rfl⟩
+    simp only [List.nil_append]
+    rw [replaceFirst_cons_pos ['Z'] new 'Z' b hz]
+    simp
   | cons c r ih =>
     have hc : c ≠ 'Z' := by
       intro hc; apply h; simp [hc]
     have hr : 'Z' ∉ r := by
       intro hr; apply h; simp [hr]
-    by_cases hp : off <+: (c :: r)
-    · rw [replaceFirst_cons_pos off ['Z'] c r hp]
-      have hz : ['Z'] <+: (['Z'] ++ (c :: r).drop off.length) := List.prefix_append _ _
-      have : ['Z'] ++ List.drop off.length (c :: r) = 'Z' :: List.drop off.length (c :: r) := rfl
-      rw [this] at hz ⊢
-      rw [replaceFirst_cons_pos ['Z'] off 'Z' _ hz]
-      simp only [List.length_singleton, List.drop_succ_cons, List.drop_zero]
-      exact prefix_append_drop _ _ hp
-    · rw [replaceFirst_cons_neg off ['Z'] c r hp]
-      have hz : ¬ ['Z'] <+: (c :: replaceFirst off ['Z'] r) := by
-        intro hh
-        obtain ⟨t, ht⟩ := hh
-        simp at ht
-        exact hc ht.1.symm
-      rw [replaceFirst_cons_neg ['Z'] off c _ hz, ih hr]
+    have hz : ¬ ['Z'] <+: (c :: (r ++ 'Z' :: b)) := by
+      intro hh
+      obtain ⟨t, ht⟩ := hh
+      simp at ht
+      exact hc ht.1.symm
+    simp only [List.cons_append]
+    rw [replaceFirst_cons_neg ['Z'] new c _ hz, ih hr]
 
+/-- text without a `Z` is left alone by `s.replace('Z', '+00:00', 1)` -/
+theorem replaceFirst_Z_none (new t : S) (h : 'Z' ∉ t) : replaceFirst ['Z'] new t = t := by
+  induction t with
+  | nil => simp [replaceFirst]
+  | cons c r ih =>
+    have hc : c ≠ 'Z' := by
+      intro hc; apply h; simp [hc]
+    have hr : 'Z' ∉ r := by
+      intro hr; apply h; simp [hr]
+    have hz : ¬ ['Z'] <+: (c :: r) := by
+      intro hh
+      obtain ⟨t, ht⟩ := hh
+      simp at ht
+      exact hc ht.1.symm
+    rw [replaceFirst_cons_neg ['Z'] new c _ hz, ih hr]
+
+/-- `s.replace('Z', '+00:00', 1)` (load side) undoes the dump side's rewrite of a trailing `+00:00` into `Z`
+on any text without a `Z`. -/
 theorem zToOffset_isoZ (t : S) (h : 'Z' ∉ t) :
-    replaceFirst ['Z'] "+00:00".toList (replaceFirst "+00:00".toList ['Z'] t) = t := by
-  rcases zToOffset_isoZ_aux "+00:00".toList t h with h1 | h2
-  · exact h1
-  · exact absurd h2 (by decide)
+    replaceFirst ['Z'] "+00:00".toList
+      (if "+00:00".toList.isSuffixOf t then t.take (t.length - 6) ++ ['Z'] else t) = t := by
+  by_cases hs : "+00:00".toList.isSuffixOf t = true
+  · simp only [hs, ↓reduceIte]
+    have hsuf : "+00:00".toList <:+ t := List.isSuffixOf_iff_suffix.mp hs
+    obtain ⟨a, ha⟩ := hsuf
+    have hlen : t.length - 6 = a.length := by
+      rw [← ha]; simp
+    have htake : t.take (t.length - 6) = a := by
+      rw [hlen, ← ha]; simp
+    rw [htake]
+    have hza : 'Z' ∉ a := by
+      intro hz; apply h; rw [← ha]; simp [hz]
+    have := replaceFirst_Z_append "+00:00".toList a [] hza
+    simp only [List.append_nil] at this
+    rw [this, ha]
+  · simp only [hs, Bool.false_eq_true, ↓reduceIte]
+    exact replaceFirst_Z_none _ t h
 
 end DW
